@@ -6,6 +6,7 @@ import (
 	"go/types"
 	"os"
 	"path/filepath"
+	"regexp"
 	"strings"
 	"sync"
 
@@ -111,13 +112,62 @@ func (e *Engine) BuildQuery(o *Obligation, decls string) string {
 		sb.WriteString(ln)
 		sb.WriteByte('\n')
 	}
+	goal := o.Goal
+	if o.ni != nil {
+		// second copy of the run with every run-local symbol renamed
+		ren := func(text string) string {
+			return reSymTok.ReplaceAllStringFunc(text, func(tok string) string {
+				bare := strings.Trim(tok, "|")
+				if o.fs.localSyms[bare] || o.ni.bases[bare] {
+					return sym(bare + "~B")
+				}
+				return tok
+			})
+		}
+		for _, ln := range o.fs.log[:o.prefix] {
+			r := ren(ln)
+			if r == ln {
+				continue // shared declaration or fact
+			}
+			sb.WriteString(r)
+			sb.WriteByte('\n')
+		}
+		for _, rel := range o.ni.relation {
+			// "@B@X" marks the renamed twin of base cell X
+			rel = reBTwin.ReplaceAllStringFunc(rel, func(m string) string { return ren(strings.TrimPrefix(m, "@B@")) })
+			sb.WriteString(rel)
+			sb.WriteByte('\n')
+		}
+		for _, d := range o.fs.detFacts {
+			if d.at > o.prefix || len(d.res) == 0 {
+				continue
+			}
+			var ae, re []string
+			for _, a := range d.args {
+				ae = append(ae, eq(a, ren(a)))
+			}
+			for _, r := range d.res {
+				re = append(re, eq(r, ren(r)))
+			}
+			if d.cond != "" {
+				ae = append(ae, d.cond, ren(d.cond))
+			}
+			sb.WriteString(fmt.Sprintf("(assert (=> %s %s))\n", and(ae...), and(re...)))
+		}
+		goal = o.ni.goalB(ren)
+	}
 	if o.Reach != "true" {
 		sb.WriteString("(assert " + o.Reach + ")\n")
 	}
-	sb.WriteString("(assert (not " + o.Goal + "))\n")
+	sb.WriteString("(assert (not " + goal + "))\n")
 	sb.WriteString("(check-sat)\n(get-model)\n")
 	return sb.String()
 }
+
+var (
+	reSymTok = regexp.MustCompile(`\|[^|]+\||[^\s()]+`)
+	reBTwin  = regexp.MustCompile(`@B@(\|[^|]+\||[^\s()]+)`)
+)
 
 // Discharge solves all obligations in parallel.
 func (e *Engine) Discharge(obls []*Obligation, par int) {
